@@ -894,6 +894,107 @@ fn interpret<K: Kind>(h: &History, root: K, base: *const u8, other: &K, cx: &mut
 
 use gimli::Endianity;
 
+/// Whole sections: the same section set parsed through every reader kind gives the same dump (entries, attribute
+/// values, expressions, line rows, errors), and offset identifiers taken anywhere in a section map back to that section
+/// and offset through `Dwarf::lookup_offset_id`.
+/// Offset identifiers are addresses: replace each by the (section, offset) it maps back to in its own file.
+fn resolve_ids<R: Reader<Offset = usize>>(lines: Vec<String>, dwarf: &gimli::Dwarf<R>) -> Vec<String> {
+    const KEY: &str = "ReaderOffsetId(";
+    lines
+        .into_iter()
+        .map(|l| {
+            let mut out = String::new();
+            let mut rest = &l[..];
+            while let Some(p) = rest.find(KEY) {
+                out.push_str(&rest[..p]);
+                let after = &rest[p + KEY.len()..];
+                let end = after.find(')').unwrap_or(after.len());
+                match after[..end].parse::<u64>() {
+                    Ok(n) => match dwarf.lookup_offset_id(ReaderOffsetId(n)) {
+                        Some((sup, sid, off)) => out.push_str(&format!("@{}{}+{:#x}", if sup { "sup:" } else { "" }, sid.name(), off)),
+                        None => out.push_str("@unmapped"),
+                    },
+                    Err(_) => out.push_str("@unparsable"),
+                }
+                rest = &after[(end + 1).min(after.len())..];
+            }
+            out.push_str(rest);
+            out
+        })
+        .collect()
+}
+
+fn check_sections(ch: &mut Choices, cx: &mut Ctx) -> R {
+    use crate::fullasm::{assemble, gen_fdwarf, GenOpts};
+    cx.label("mode:sections");
+    let d = gen_fdwarf(ch, &GenOpts { max_units: 2, max_dies: 6, lines: true, bad_refs: 0, split: false });
+    let mut map = assemble(&d).sections;
+    // now and then a section cut short or damaged, so that error paths (which empty the reader) are compared too
+    if ch.chance(110) {
+        let names: Vec<&'static str> = map.keys().copied().collect();
+        let name = names[ch.below(names.len())];
+        let len = map[name].len();
+        if len > 0 {
+            if ch.bool() {
+                map.get_mut(name).unwrap().truncate(ch.below(len));
+            } else {
+                let at = ch.below(len);
+                map.get_mut(name).unwrap()[at] = ch.pick(&[0xffu8, 0x80, 0x00, 0x7f]);
+            }
+            cx.label("mode:sections (damaged)");
+        }
+    }
+    let endian = if d.big { RunTimeEndian::Big } else { RunTimeEndian::Little };
+    cx.sample_with(|| format!("section set: {}", map.iter().filter(|(_, v)| !v.is_empty()).map(|(k, v)| format!("{} {} bytes", k, v.len())).collect::<Vec<_>>().join(", ")));
+    let empty: &[u8] = &[];
+    let get = |id: gimli::SectionId| -> &[u8] { map.get(id.name()).map(|v| &v[..]).unwrap_or(empty) };
+    let plain: gimli::Dwarf<EndianSlice<RunTimeEndian>> = gimli::Dwarf::load(|id| -> gimli::Result<_> { Ok(EndianSlice::new(get(id), endian)) }).unwrap();
+    let a = resolve_ids(crate::c18::dump(&plain), &plain);
+    {
+        let rc: gimli::Dwarf<EndianReader<RunTimeEndian, Rc<[u8]>>> = gimli::Dwarf::load(|id| -> gimli::Result<_> { Ok(EndianReader::new(Rc::from(get(id)), endian)) }).unwrap();
+        let b = resolve_ids(crate::c18::dump(&rc), &rc);
+        if a != b {
+            let i = a.iter().zip(b.iter()).position(|(x, y)| x != y).unwrap_or(a.len().min(b.len()));
+            fail!("c10/sections/rc-differs", "line {}: EndianSlice `{:?}` vs EndianRcSlice `{:?}`", i, a.get(i), b.get(i));
+        }
+    }
+    {
+        let arc: gimli::Dwarf<EndianReader<RunTimeEndian, Arc<[u8]>>> = gimli::Dwarf::load(|id| -> gimli::Result<_> { Ok(EndianReader::new(Arc::from(get(id)), endian)) }).unwrap();
+        let b = resolve_ids(crate::c18::dump(&arc), &arc);
+        if a != b {
+            let i = a.iter().zip(b.iter()).position(|(x, y)| x != y).unwrap_or(a.len().min(b.len()));
+            fail!("c10/sections/arc-differs", "line {}: EndianSlice `{:?}` vs EndianArcSlice `{:?}`", i, a.get(i), b.get(i));
+        }
+    }
+    {
+        let rel: gimli::Dwarf<RelocateReader<EndianSlice<RunTimeEndian>, Identity>> = gimli::Dwarf::load(|id| -> gimli::Result<_> { Ok(RelocateReader::new(EndianSlice::new(get(id), endian), Identity)) }).unwrap();
+        let b = resolve_ids(crate::c18::dump(&rel), &rel);
+        if a != b {
+            let i = a.iter().zip(b.iter()).position(|(x, y)| x != y).unwrap_or(a.len().min(b.len()));
+            fail!("c10/sections/relocate-identity-differs", "line {}: EndianSlice `{:?}` vs identity-relocating reader `{:?}`", i, a.get(i), b.get(i));
+        }
+    }
+    // offset identifiers through the whole-file lookup
+    use gimli::SectionId as S;
+    for sid in [S::DebugAbbrev, S::DebugAddr, S::DebugAranges, S::DebugInfo, S::DebugLine, S::DebugLineStr, S::DebugLoc, S::DebugLocLists, S::DebugRanges, S::DebugRngLists, S::DebugStr, S::DebugStrOffsets, S::DebugTypes] {
+        let bytes = get(sid);
+        if bytes.is_empty() {
+            continue;
+        }
+        for k in [0usize, bytes.len() / 2, bytes.len()] {
+            let mut r = EndianSlice::new(bytes, endian);
+            r.skip(k).map_err(|e| Failure { sig: "c10/sections/skip".into(), detail: format!("{e:?}") })?;
+            ensure_eq!(plain.lookup_offset_id(r.offset_id()), Some((false, sid, k)), "c10/sections/lookup_offset_id", "{:?} offset {}", sid, k);
+        }
+    }
+    let foreign = [0u8; 4];
+    ensure_eq!(plain.lookup_offset_id(EndianSlice::new(&foreign[..], endian).offset_id()), None, "c10/sections/lookup_offset_id-foreign");
+    if a.len() >= 6 {
+        cx.nt();
+    }
+    Ok(())
+}
+
 pub fn run_history(h: &History, cx: &mut Ctx) -> R {
     let endian = if h.big { RunTimeEndian::Big } else { RunTimeEndian::Little };
     let other_buf: Vec<u8> = vec![0x5a; 16];
@@ -959,7 +1060,7 @@ impl Prop for C10 {
         "C10"
     }
     fn rule(&self) -> &'static str {
-        "random histories (1..40 ops over a pool of live readers: fixed/LEB/sized reads, skip, split, truncate, empty, find, clone, drop, offset_from, offset_id+lookup on every pool member and a foreign buffer, to_slice/to_string*, range*) over buffers of 1..64 bytes, run on six reader kinds in lock-step against a cursor model; after every op every live reader's (pointer,len) must equal the model's (offset,len) inside the original buffer, and the six observation traces must be equal. Non-trivial = history with >=1 successful split followed by further ops, >=6 observations, and a clone that outlives the root reader; distinct by choice string."
+        "random histories (1..40 ops over a pool of live readers: fixed/LEB/sized reads, skip, split, truncate, empty, find, clone, drop, offset_from, offset_id+lookup on every pool member and a foreign buffer, to_slice/to_string*, range*) over buffers of 1..64 bytes, run on six reader kinds in lock-step against a cursor model; after every op every live reader's (pointer,len) must equal the model's (offset,len) inside the original buffer, and the six observation traces must be equal. separate mode (whole sections): an assembler-built section set (sometimes with one section cut short or damaged) parsed through EndianSlice, EndianRcSlice, EndianArcSlice and an identity-relocating reader gives the same dump of units, entries, attribute values, expressions and line rows incl. errors, and offset identifiers taken at the start, middle and end of every section map back to (section, offset) through Dwarf::lookup_offset_id. Non-trivial = history with >=1 successful split followed by further ops, >=6 observations, and a clone that outlives the root reader; distinct by choice string."
     }
     fn assumptions(&self) -> Vec<&'static str> {
         vec![
@@ -981,6 +1082,9 @@ impl Prop for C10 {
         }
     }
     fn run_case(&self, ch: &mut Choices, cx: &mut Ctx) -> R {
+        if ch.chance(28) {
+            return check_sections(ch, cx);
+        }
         let h = gen_history(ch);
         cx.sample_with(|| format!("data={:02x?} big={} ops={:?}", h.data, h.big, h.ops));
         run_history(&h, cx)
